@@ -367,6 +367,15 @@ class VG:
     def save(self):
         return (dict(self.fields), list(self.pc), self.dead, dict(self.frames[-1].locals), dict(self.child_epoch))
 
+    def restore_pure(self, saved, node=None):
+        """Restore the state saved before a closure was evaluated under a path condition. The closure is expected to be pure
+        w.r.t. the view's fields: a write inside it would be lost by the restore, so it is reported (fail closed)."""
+        before = saved[0]
+        changed = [k for k, t in self.fields.items() if before.get(k, ('in', k)) != t]
+        if changed:
+            self.unknowns.append(('closure-writes-state:%s' % ','.join(sorted(changed)[:3]), loc(node) if node else '?'))
+        self.restore(saved)
+
     def restore(self, saved):
         self.fields, self.pc, self.dead, loc_, self.child_epoch = dict(saved[0]), list(saved[1]), saved[2], dict(saved[3]), dict(saved[4])
         self.frames[-1].locals = loc_
@@ -574,8 +583,12 @@ class VG:
             l = self.value(e['l'], fr)
             # short-circuit: evaluate r under the refined pc (events inside r are conditional)
             self.pc.append(l if o == 'and' else neg_cond(l))
+            fields_before = dict(self.fields)
             r = self.value(e['r'], fr)
             self.pc.pop()
+            if any(fields_before.get(k_, ('in', k_)) != t_ for k_, t_ in self.fields.items()):
+                # the right operand of a short-circuit operator has a side effect on the state: it only happens conditionally
+                self.note_unknown('side-effect-in-short-circuit-operand', e)
             return op(o, l, r)
         l = self.value(e['l'], fr)
         r = self.value(e['r'], fr)
@@ -1282,7 +1295,7 @@ class VG:
                     self.pc.append(is_some(od))
                     r = self.apply_closure(cl, [payload(od)], fr)
                     # closure side effects on fields are not expected; keep conservative state
-                    self.restore(saved)
+                    self.restore_pure(saved, e)
                     return phi(is_some(od), some(r), NONE)
                 return self.note_unknown('option-map-non-closure', e)
             if short in ('take',):
@@ -1311,7 +1324,7 @@ class VG:
                             saved = self.save()
                             self.pc.append(neg_cond(is_some(cur)))
                             newv = d(self.apply_closure(cl, [], fr))
-                            self.restore(saved)
+                            self.restore_pure(saved, e)
                         else:
                             fn_node = strip(e['args'][1])
                             fname = canon(fn_node.get('def', '')) if fn_node.get('k') == 'path' else ''
@@ -1332,12 +1345,12 @@ class VG:
                     saved = self.save()
                     self.pc.append(neg_cond(is_some(od)))
                     r = self.apply_closure(cl, [], fr)
-                    self.restore(saved)
+                    self.restore_pure(saved, e)
                     return phi(is_some(od), payload(od) if short == 'unwrap_or_else' else od, d(r) if short == 'unwrap_or_else' else r)
                 saved = self.save()
                 self.pc.append(is_some(od))
                 r = self.apply_closure(cl, [payload(od)], fr)
-                self.restore(saved)
+                self.restore_pure(saved, e)
                 if isinstance(r, tuple) and r and r[0] == 'ref':
                     r = self.deref(r)
                 if short == 'filter':
@@ -1356,7 +1369,7 @@ class VG:
                         saved = self.save()
                         self.pc.append(neg_cond(is_some(od)))
                         dv = self.apply_closure(dcl, [], fr)
-                        self.restore(saved)
+                        self.restore_pure(saved, e)
                         return phi(is_some(od), r, d(dv))
             if short == 'or':
                 return phi(is_some(od), od, d(argv[1]))
@@ -1467,7 +1480,7 @@ class VG:
                 saved = self.save()
                 self.pc.append(c)
                 r = self.apply_closure(cl, [], fr)
-                self.restore(saved)
+                self.restore_pure(saved, e)
                 if isinstance(r, tuple) and r and r[0] == 'ref':
                     r = self.deref(r)
                 return phi(c, some(r), NONE)
@@ -1684,6 +1697,7 @@ class VG:
                 info = {'iter': self.last_canon if self.last_canon is not None else base, 'node': e, 'carried': {}, 'outer': tuple(self.loop_stack), 'hyps': hyps}
                 self.loops[L] = info
                 saved_pc = list(self.pc)
+                fields_before = dict(self.fields)
                 self.pc.append(('inloop', L))
                 self.loop_stack.append(L)
                 item = self.deref(item) if not (isinstance(item, tuple) and item and item[0] == 'tuple') else item
@@ -1727,6 +1741,10 @@ class VG:
                     init = nxt = unk('iter-' + short)
                 self.loop_stack.pop()
                 self.pc = saved_pc
+                if any(fields_before.get(k_, ('in', k_)) != t_ for k_, t_ in self.fields.items()):
+                    # a closure passed to an iterator adaptor wrote a field: that is a loop-carried effect this synthesis does not model
+                    self.fields = fields_before
+                    return self.note_unknown('iterator-closure-writes-state', e)
                 if ok:
                     if keep:
                         nxt = phi(conj(keep), nxt, mu)
